@@ -63,6 +63,7 @@ def run_case(res, case):
         res["judged"][k] = res["judged"].get(k, 0) + 1
 
     f_np = lambda x: eval_map(onp, P, a0, x, b0, scale=scale)
+    f_np_s = lambda ss: eval_map(onp, P, a0, x0, b0, scale=ss)
     f_ag = lambda a, x, b, scale=1.0, shift=0.0: eval_map(anp, P, a, x, b, scale=scale, shift=shift)
     fx = lambda x: f_ag(a0, x, b0, scale=scale)
     y0 = f_np(x0)
@@ -277,6 +278,21 @@ def run_case(res, case):
                     exp_in = float(onp.sum(onp.tensordot(w, dJ, axes=len(out_shape)) * onp.asarray(v)))
                     if abs(float(g_in) - exp_in) > 1e-6 * (1.0 + abs(exp_in)) + tolm * float(onp.sum(onp.abs(w))) * float(onp.sum(onp.abs(onp.asarray(v)))):
                         return viol("wrong_value", "grad over a closed-over parameter of an inner grad taken at a constant point: %r vs %r" % (g_in, exp_in), "grad_of_grad:closure")
+                    if pname == "scale":
+                        # auxiliary / primal outputs that depend on the ENCLOSING variable only stay differentiable
+                        # by the enclosing operator
+                        aux_outer = lambda ss: grad_and_aux(lambda xx: (L_ag(a0, xx, b0, scale=ss), f_ag(a0, x0, b0, scale=ss) * 1.0))(x0)[1]
+                        val_outer = lambda ss: value_and_grad(lambda xx: L_ag(a0, xx, b0, scale=ss))(x0)[0]
+                        fda = fd_directional(lambda sv: common.realify(onp.asarray(f_np_s(float(sv[0])), dtype=float)), onp.array([scale]), onp.array([1.0]))
+                        if fda.ok:
+                            d_aux = fda.val.reshape(out_shape)
+                            tola = 1e-6 * (1.0 + float(onp.max(onp.abs(d_aux))) if d_aux.size else 1.0)
+                            for label, r in (("grad_and_aux:aux_of_outer_only:deriv", deriv(aux_outer)(scale)), ("grad_and_aux:aux_of_outer_only:jacobian", jacobian(aux_outer)(scale))):
+                                if onp.shape(r) != out_shape or not close(r, d_aux, tola):
+                                    return viol("wrong_value", "%s deviates: %s vs %s" % (label, common.brief(onp.asarray(r)), common.brief(d_aux)), label)
+                            gv = grad(val_outer)(scale)
+                            if abs(float(gv) - float(onp.sum(w * d_aux))) > tola * (1.0 + float(onp.sum(onp.abs(w)))):
+                                return viol("wrong_value", "grad of the value part of value_and_grad w.r.t. an enclosing variable: %r vs %r" % (gv, float(onp.sum(w * d_aux))), "value_and_grad:value_of_outer_only")
                     ops_checked.append("mixed_closure_parameter")
             # --- second order: reference H = FD Jacobian of autograd's gradient (C01-judged), symmetric
             Gf = lambda vv_: common.realify(grad(Lx)(common.unrealify(vv_, x0)))
